@@ -6,3 +6,4 @@ import XProofs.Properties.C08
 #print axioms Properties.C08.C08_value_range
 #print axioms Properties.C08.C08_value_range_is
 #print axioms Properties.C08.C08_compose
+#print axioms Properties.C08.C08_count_selector
